@@ -2,4 +2,4 @@ from ._muxprops import make, COMMON_RULE
 
 SPEC = make("C15", "Properties.C15", ['C15_bind_request_sent', 'C15_bind_request_shown', 'C15_bind_disabled_reset', 'C15_bind_answer', 'C15_bind_poll_once', 'C15_answers_independent'],
             [("pair", "bind", 0.6), ("pair", "bind-collide-drop-end", 0.4)],
-            COMMON_RULE + "Emphasis for this property: generator mode(s) bind.", "DESIGN.md §4 C15")
+            COMMON_RULE + "Emphasis for this property: generator mode(s) bind.", "DESIGN.md §5 C15")
